@@ -1020,3 +1020,4 @@ def _more():
 
 UNITS = UNITS + _more()
 from props.c18_ext2 import UNITS as _U2; UNITS = UNITS + _U2
+from props.c18_ext3 import UNITS as _U3; UNITS = UNITS + _U3
